@@ -272,6 +272,18 @@ func ruleSuffix(e *Env, rule string) {
 		if returned && !seenRem[g] {
 			seenRem[g] = true
 			rems = append(rems, remainder{g, c})
+		} else if returned && rule == "C14.suffix" {
+			// a further call of a remainder function already tabulated: the same cut, the same operand order
+			var first *ssa.Call
+			for _, r := range rems {
+				if r.fn == g {
+					first = r.call
+				}
+			}
+			if first != nil && shorterArgIndex(cpr, c) != shorterArgIndex(cpr, first) {
+				e.S.Bad(rule, flow.FnName(cpr), "operand order", "the remainder function is called with its two operands exchanged at one of its call sites: the comparison there is the mirror of the other one", e.posOf(c), "1.0.0-x- vs 1.0.0-xa")
+			}
+			ruleDigitRunStart(e, rule, cpr, c, true)
 		}
 	}
 	if len(rems) == 0 {
@@ -576,6 +588,9 @@ func ruleDigitRunStart(e *Env, rule string, scan *ssa.Function, call *ssa.Call, 
 	if symOnly && back == nil {
 		if entry(cut) {
 			e.S.Ok(rule, site, construct, "the remainders are cut at the first differing position", e.posOf(call))
+		} else if cutFromCall(cut, 0) {
+			// computed by a function this rule has no summary for (strings.LastIndexFunc(s[:i], …)+1): not read
+			e.S.Unk(rule, site, construct, "the index at which the remainders are cut is computed by a call this rule does not read: whether it depends only on what the two operands share is not decided", e.posOf(call))
 		} else {
 			bad("the index at which the remainders are cut is neither the first differing position nor that position moved back over the common prefix: a cut that depends on a byte of one operand at or behind the difference is not the same for Compare(a,b) and Compare(b,a)")
 		}
@@ -902,4 +917,20 @@ func ruleC14Next(e *Env) {
 			}
 		}
 	}
+}
+
+// cutFromCall: v is the result of a call, or arithmetic with constants on one.
+func cutFromCall(v ssa.Value, depth int) bool {
+	if depth > 4 {
+		return false
+	}
+	switch x := v.(type) {
+	case *ssa.Call:
+		return true
+	case *ssa.BinOp:
+		return cutFromCall(x.X, depth+1) || cutFromCall(x.Y, depth+1)
+	case *ssa.Convert:
+		return cutFromCall(x.X, depth+1)
+	}
+	return false
 }
